@@ -153,6 +153,14 @@ class SystemWorld:
             col = z3.Store(col, w.keys[i], self.ih[i])
             pc.append(z3.Or([self.ih[i] == g for g in w.hashes]))
         self.intents = VMap("hash", "K", present, {"v": col}, ("sym", "H"))
+        built = self.intents_by_constructor(ex, st)
+        if built is not None:
+            # the current source keeps its intents in a container of its own: the EMPTY one is built by the type's real
+            # constructor (its MIR); in-flight commits of other actors are then added through the real register_intent
+            # (obl_sched.add_inflight).  Arbitrary non-empty contents cannot be invented for an unknown representation.
+            self.intents = built
+            for i in range(U):
+                pc.append(z3.Not(self.ip[i]))
         # WAL manager
         self.N = z3.Int("w_N")
         self.next = z3.Int("w_next")
@@ -184,6 +192,27 @@ class SystemWorld:
                       _lockfile=lockfile, datasync_channel=chan)
         self.cas_ref = VRef(st.alloc(self.cas))
         self.set_refs(ex, self.cas_ref.cell, ())
+
+    def intents_by_constructor(self, ex, st):
+        import re
+        from exec import Unsupported
+        ty = getattr(ex.si, "struct_types", {}).get("Index", {}).get("pending_intents", "").strip().rstrip(",")
+        m = re.match(r"(?:parking_lot::)?Mutex<(.*)>$", ty)
+        if not m or re.match(r"(?:\w+::)*HashMap<", m.group(1)):
+            return None
+        base = re.sub(r"<.*$", "", m.group(1)).split("::")[-1]
+        cands = [f for n, f in ex.fns.items() if not f.params and f.ret and re.sub(r"<.*$", "", f.ret).split("::")[-1] == base]
+        cands.sort(key=lambda f: (0 if f.name.endswith("::default") else 1 if f.name.endswith("::new") else 2, f.name))
+        if not cands:
+            raise Unsupported(f"pending_intents is a `{m.group(1)}` and no parameterless constructor of it is in the MIR")
+        ex.start(st, cands[0], [])
+        outs = ex.run(st)
+        good = [f for f in outs if f.status == "returned"]
+        if len(outs) != 1 or len(good) != 1 or good[0] is not st:
+            raise Unsupported(f"constructor {cands[0].name} of the intents container: {[(f.status, f.note) for f in outs][:3]}")
+        st.status = "running"
+        v, st.retval = st.retval, None
+        return v
 
     def set_refs(self, ex, cell, prefix):
         """references into the CasInner located at (cell, prefix), by field name"""
